@@ -9,9 +9,19 @@ pub struct StepToI64Iterator {
 
 impl StepToI64Iterator {
     pub fn new(start: i64, target: i64, step_by: i64) -> Self {
-        let steps_to_target = (target - start).abs() / step_by;
-        let step_by = if target < start { -step_by } else { step_by };
-        let target = start + step_by * steps_to_target;
+        // The distance between the start and target can exceed the i64 range
+        let distance = (target as i128 - start as i128).unsigned_abs();
+        let steps_to_target = if step_by == 0 {
+            -1 // A step size of zero never reaches the target, so the iterator is empty
+        } else {
+            i64::try_from(distance as i128 / step_by as i128).unwrap_or(i64::MAX)
+        };
+        let step_by = if target < start {
+            step_by.wrapping_neg()
+        } else {
+            step_by
+        };
+        let target = start.wrapping_add(step_by.wrapping_mul(steps_to_target));
 
         Self {
             target,
@@ -33,7 +43,7 @@ impl KotoIterator for StepToI64Iterator {
     fn next_back(&mut self) -> Option<KIteratorOutput> {
         if self.steps_to_target >= 0 {
             let result = self.target;
-            self.target -= self.step_by;
+            self.target = self.target.wrapping_sub(self.step_by);
             self.steps_to_target -= 1;
             Some(KIteratorOutput::Value(result.into()))
         } else {
@@ -47,7 +57,9 @@ impl Iterator for StepToI64Iterator {
 
     fn next(&mut self) -> Option<Self::Item> {
         if self.steps_to_target >= 0 {
-            let result = self.target - self.step_by * self.steps_to_target;
+            let result = self
+                .target
+                .wrapping_sub(self.step_by.wrapping_mul(self.steps_to_target));
             self.steps_to_target -= 1;
             Some(KIteratorOutput::Value(result.into()))
         } else {
